@@ -1895,6 +1895,14 @@ func (v *Verifier) finishPath(st *State, rs []*Term) {
 		}
 	}
 	v.useAxioms(st, env, con.Uses)
+	for _, d := range v.deferredGU {
+		e2 := *env
+		e2.mode = 0
+		if pk := v.typesPkg(d.pkg); pk != nil {
+			e2.pkg = pk
+		}
+		v.ghostUpdate(st, &e2, d.gu, d.name)
+	}
 	// the function's own ghost updates take effect at return
 	for _, gu := range con.GhostUpd {
 		e2 := *env
@@ -1943,6 +1951,23 @@ func (v *Verifier) finishPath(st *State, rs []*Term) {
 		}
 	}
 	// use-after-release: nothing (checked at accesses)
+}
+
+type deferredGhost struct {
+	gu   *GhostUpdate
+	pkg  string
+	name string
+}
+
+func mentionsResult(x ast.Expr) bool {
+	found := false
+	ast.Inspect(x, func(n ast.Node) bool {
+		if id, ok := n.(*ast.Ident); ok && strings.HasPrefix(id.Name, "result") {
+			found = true
+		}
+		return true
+	})
+	return found
 }
 
 // verifyFunc symbolically executes fn against contract con and collects obligations.
@@ -2014,6 +2039,8 @@ func (v *Verifier) verifyFunc(fn *ssa.Function, con *Contract, name string) {
 		if t.Sort == "Ptr" {
 			st.assume(tNotFresh(t))
 			st.assume(tNot(tEq(t, tNilP)))
+			// a captured variable lives in its own cell: never inside a struct or a backing array
+			st.assume(tAnd(tNot(mk("Bool", "(_ is zz_fld)", t)), tNot(mk("Bool", "(_ is zz_elem)", t))))
 		}
 		f.vals[fv] = t
 		// captured variables: the binding is the address of the variable
@@ -2160,8 +2187,14 @@ func (v *Verifier) verifyFunc(fn *ssa.Function, con *Contract, name string) {
 	st.entry = st.snapshot()
 	st.entry.entry = nil
 	// ghost updates of implemented interface contracts happen "on entry" of the implementer
+	v.deferredGU = nil
 	for _, j := range pendingGU {
 		for _, gu := range j.ic.GhostUpd {
+			if mentionsResult(gu.Value) {
+				// an update that names the result takes effect at return
+				v.deferredGU = append(v.deferredGU, deferredGhost{gu: gu, pkg: j.ic.Pkg, name: j.ic.Name})
+				continue
+			}
 			e2 := *j.env
 			e2.st = st
 			e2.old = st.entry
